@@ -20,6 +20,8 @@ def gen(rng):
         return {'part': 'err', 'op': 'from_S', 'S': S, 'norm_old': rng.choice([None, None, 0.0, 1.0, 2.0, 0.5, 4.0])}
     if k < 0.6:
         return {'part': 'err', 'op': 'from_norm', 'norm_new': rng.choice(DY), 'norm_old': rng.choice([1.0, 2.0, 0.5, 4.0, 0.25])}
+    if k < 0.7:
+        return {'part': 'err', 'op': 'copy', 'eps': rng.choice(DY) / 4, 'ov': rng.choice([1.0, 0.5, 0.75, 0.875])}
     n = rng.randint(1, 5)
     return {'part': 'err', 'op': 'add',
             'errs': [[rng.choice(DY) / 8, rng.choice([1.0, 0.5, 0.75, 0.875, 0.25])] for _ in range(n)]}
@@ -31,6 +33,17 @@ def run_impl(case):
         e = TruncationError.from_S(np.array(case['S'], dtype=float), case['norm_old'])
     elif case['op'] == 'from_norm':
         e = TruncationError.from_norm(case['norm_new'], case['norm_old'])
+    elif case['op'] == 'copy':
+        a = TruncationError(case['eps'], case['ov'])
+        e = a.copy()
+        same_type = type(e) is TruncationError and e is not a
+        rep = repr(a)  # must not raise; content is not part of the property
+        d = TruncationError()
+        e2 = a.copy()
+        e2.eps += 1.0  # a copy is independent of the original
+        e2.ov = 0.0
+        return {'eps': float(e.eps), 'ov': float(e.ov), 'ov_err': float(e.ov_err), 'same_type': same_type,
+                'orig': [float(a.eps), float(a.ov)], 'default': [float(d.eps), float(d.ov), repr(d)], 'repr_ok': isinstance(rep, str)}
     else:
         es = [TruncationError(a, b) for a, b in case['errs']]
         e = TruncationError()
@@ -63,6 +76,15 @@ def oracle(case, impl):
         eps = 1 - fr(case['norm_new']) ** 2 / fr(case['norm_old']) ** 2
         want = (eps, 1 - 2 * eps)
         name = 'err.from_norm'
+    elif case['op'] == 'copy':
+        want = (fr(case['eps']), fr(case['ov']))
+        name = 'err.copy'
+        if not impl['same_type'] or not impl['repr_ok']:
+            return 'err.copy.type', str(impl)
+        if impl['orig'] != [case['eps'], case['ov']]:
+            return 'err.copy.aliases-original', f'original became {impl["orig"]}'
+        if impl['default'][:2] != [0.0, 1.0]:
+            return 'err.default-not-neutral', str(impl['default'])
     else:
         eps, ov = F(0), F(1)
         for a, b in case['errs']:
@@ -80,6 +102,8 @@ def oracle(case, impl):
 
 
 def model_line(case):
+    if case['op'] == 'copy':  # the model has values, not objects: a copy is the value itself = sum with nothing else
+        return {'k': 'add', 'errs': [{'eps': rs(fr(case['eps'])), 'ov': rs(fr(case['ov']))}]}
     if case['op'] == 'from_S':
         return {'k': 'from_S', 'S': [rs(fr(x)) for x in case['S']],
                 'norm_old': None if case['norm_old'] is None else rs(fr(case['norm_old']))}
@@ -112,6 +136,8 @@ CORPUS = [
     {'part': 'err', 'op': 'from_S', 'S': [], 'norm_old': 0.0},
     {'part': 'err', 'op': 'from_norm', 'norm_new': 0.75, 'norm_old': 1.0},
     {'part': 'err', 'op': 'add', 'errs': [[0.125, 0.75], [0.0625, 0.875], [0.0, 1.0]]},
+    {'part': 'err', 'op': 'copy', 'eps': 0.125, 'ov': 0.75},
+    {'part': 'err', 'op': 'from_norm', 'norm_new': 0.5, 'norm_old': 2.0},
 ]
 
 
